@@ -159,9 +159,15 @@ DIRECTIVES = [
     ("pragma-args", "#pragma pack(push, 1){c}\nint after;\n", lambda d: [[t.value for t in p.content.tokens] for p in d.pragmas], [["pack", "(", "push", ",", "1", ")"]]),
     ("hash-space-pragma", "#  pragma once{c}\nint after;\n", lambda d: [[t.value for t in p.content.tokens] for p in d.pragmas], [["once"]]),
     ("pragma-comment-inside", "#pragma omp /* w */ parallel /**/for{c}\nint after;\n", lambda d: [[t.value for t in p.content.tokens] for p in d.pragmas], [["omp", "parallel", "for"]]),
+    ("decl-then-pragma", "struct PS {{ int a0;{c}\n#pragma pack(push, 1)\nint b0; }};\nint after;\n", lambda d: [[t.value for t in p.content.tokens] for p in d.pragmas], [["pack", "(", "push", ",", "1", ")"]]),
+    ("enumerator-then-include", "enum EQ {{ A0,{c}\nB0 }};\n#include <q.h>\nint after;\n", lambda d: [i.filename for i in d.includes], ["<q.h>"]),
     ("pragma-continued", "#pragma omp \\\n parallel{c}\nint after;\n", lambda d: [[t.value for t in p.content.tokens] for p in d.pragmas], [["omp", "parallel"]]),
 ]
 DIR_COMMENTS = ["", " ", " // c", " /* c */", "/* c */", "\t// c", " /* c */ ", "\r"]
+
+
+LAST_SHAPE = None
+NEXT_LINE_TOKENS = ["int", "after", ";"]
 
 
 def directive_judge(di, ci):
@@ -176,6 +182,14 @@ def directive_judge(di, ci):
         return src, f"parse error: {e}"
     got = extract(d)
     if got != want:
+        global LAST_SHAPE
+        cm = DIR_COMMENTS[ci].strip()
+        if got and isinstance(got[0], list) and got == [want[0] + NEXT_LINE_TOKENS]:
+            LAST_SHAPE = "swallows-next-line"  # D9: the comment token took the newline that ends the #pragma
+        elif got and isinstance(got[0], str) and cm and got == [want[0] + DIR_COMMENTS[ci].rstrip()]:
+            LAST_SHAPE = "keeps-comment"  # D10: the include rule captures the rest of the line
+        else:
+            LAST_SHAPE = "other"
         return src, f"directive content {got}, expected {want}"
     names = [v.name.segments[-1].name for v in d.namespace.variables]
     if names != ["after"]:
@@ -447,7 +461,9 @@ def run(tier):
             ck.traces += 1
             if bad:
                 cm = DIR_COMMENTS[ci].strip()
-                cls = ("pragma" if "pragma" in DIRECTIVES[di][0] else "include") + ("-line-comment" if cm.startswith("//") else "-block-comment" if cm.startswith("/*") else "-other")
+                kind = "pragma" if DIRECTIVES[di][0].startswith(("pragma", "hash")) else "include" if DIRECTIVES[di][0].startswith("include") else DIRECTIVES[di][0]
+                shape_ok = (kind == "pragma" and LAST_SHAPE == "swallows-next-line") or (kind == "include" and LAST_SHAPE == "keeps-comment")
+                cls = (kind if shape_ok else "other:" + DIRECTIVES[di][0]) + ("-line-comment" if cm.startswith("//") else "-block-comment" if cm.startswith("/*") else "-other")
                 body = ("from vf.props import c09\n" f"src, bad = c09.directive_judge({di}, {ci})\nprint(repr(src)); print(bad)\nsys.exit(1 if bad else 0)\n")
                 ck.violation(f"{bad}: {src!r}", ck.write_replay(body), key=dict(kind="directive", cls=cls))
     ck.sub("#include / #pragma lines: a comment before the line end changes nothing", "replay", "holds" if not [v for v in ck.violations if v["key"]["kind"] == "directive"] else "flagged", cases=nd)
